@@ -13,7 +13,7 @@ rsync -a --exclude .git /repo/ $M/repo/
 (cd $M/repo && go build ./... && go test -vet=off -count=1 ./... >/dev/null 2>&1) || { echo "MUT: mutant does not build or fails the module's tests"; exit 3; }
 rc=0
 for p in "$@"; do
-  VERIF_REPO=$M/repo VERIF_OUT=$M/out VERIF_BUDGET=${VERIF_BUDGET:-20} /verif/verifctl.py check $p quick > $M/$p.log 2>&1
+  VERIF_CACHE=$M/cache VERIF_REPO=$M/repo VERIF_OUT=$M/out VERIF_BUDGET=${VERIF_BUDGET:-20} /verif/verifctl.py check $p quick > $M/$p.log 2>&1
   r=$?
   echo "MUT $(basename $patch) $p: exit $r $(grep -c '^VIOLATION' $M/$p.log) violation line(s); $(grep -m1 '^violation:' $M/$p.log | cut -c1-200)"
   [ $r = 2 ] && tail -5 $M/$p.log
